@@ -6,6 +6,8 @@
 //	POST /1.0/sign    JWK one-time token + CSR                      -> 201 | 403 | 500
 //	POST /1.0/renew   mutual TLS with a certificate carrying the names -> 201 | 403 | 500
 //	POST /1.0/rekey   the same + CSR with a new key
+//	POST /1.0/renew   with `Authorization: Bearer <x5cInsecure renew token>` instead of mutual TLS,
+//	                  for a certificate issued by the CA's previous, unconstrained intermediate
 //	ACME              new-order, http-01 for every identifier (fake validation client),
 //	                  finalize with a CSR for exactly those names (DNS / IP names only)
 //	SCEP              PKCSReq with a CSR carrying the names (RSA keys), pkiStatus of the CertRep
@@ -82,6 +84,7 @@ var (
 	caKeys  []crypto.Signer // [0] RSA (SCEP needs an RSA issuing key), the rest ECDSA
 	leafKey *ecdsa.PrivateKey
 	newKey  *ecdsa.PrivateKey
+	oldKey  *ecdsa.PrivateKey
 	scepKey *rsa.PrivateKey
 	scepCrt *x509.Certificate
 	t0      = time.Now().Add(-time.Hour).Truncate(time.Second)
@@ -232,13 +235,14 @@ func (f *fakeACME) TLSDial(string, string, *tls.Config) (*tls.Conn, error) {
 }
 
 type front struct {
-	b    *built
-	ca   *fixture.CA
-	srv  *fixture.Server
-	dir  string
-	fake *fakeACME
-	env  *acmeenv.Env
-	acct *acmeenv.Acct
+	oldInt *x509.Certificate // an unconstrained intermediate of an earlier generation, same root
+	b      *built
+	ca     *fixture.CA
+	srv    *fixture.Server
+	dir    string
+	fake   *fakeACME
+	env    *acmeenv.Env
+	acct   *acmeenv.Acct
 }
 
 func (f *front) close() {
@@ -250,6 +254,14 @@ func (f *front) close() {
 
 func newFront(b *built) (*front, error) {
 	f := &front{b: b, fake: &fakeACME{m: map[string]string{}}}
+	// the intermediate the CA ran on before it was replaced by the constrained one: certificates
+	// it issued still chain to the configured root
+	ot := &x509.Certificate{SerialNumber: big.NewInt(77), Subject: pkix.Name{CommonName: "C05 old intermediate"},
+		NotBefore: t0, NotAfter: t1, IsCA: true, BasicConstraintsValid: true,
+		KeyUsage: x509.KeyUsageCertSign | x509.KeyUsageCRLSign, SubjectKeyId: []byte{0xC0, 0x05, 0x77, 0x02}}
+	if od, err := x509.CreateCertificate(rand.Reader, ot, b.root, oldKey.Public(), caKeys[len(b.ints)]); err == nil {
+		f.oldInt, _ = x509.ParseCertificate(od)
+	}
 	dir, err := os.MkdirTemp("", "verif-c05-front-")
 	if err != nil {
 		return nil, err
@@ -428,10 +440,35 @@ func sameNameSets(a, b *x509.Certificate) bool {
 	return true
 }
 
-func (f *front) post(path string, body any, peer []*x509.Certificate) fixture.Result {
+// renewToken mints what `step ca renew` sends when it cannot use mutual TLS: a JWT signed with
+// the certificate's key that carries the certificate chain in the x5cInsecure header.
+func renewToken(chain []*x509.Certificate, key crypto.Signer, sub string) (string, error) {
+	var x5c []string
+	for _, crt := range chain {
+		x5c = append(x5c, base64.StdEncoding.EncodeToString(crt.Raw))
+	}
+	so := new(jose.SignerOptions).WithType("JWT").WithHeader("x5cInsecure", x5c)
+	sig, err := jose.NewSigner(jose.SigningKey{Algorithm: jose.ES256, Key: key}, so)
+	if err != nil {
+		return "", err
+	}
+	var jti [16]byte
+	rand.Read(jti[:])
+	now := time.Now()
+	return jose.Signed(sig).Claims(map[string]any{
+		"iss": "step-ca-client/1.0", "sub": sub, "aud": fixture.Audience("/1.0/renew"),
+		"iat": now.Unix(), "nbf": now.Add(-time.Second).Unix(), "exp": now.Add(5 * time.Minute).Unix(),
+		"jti": hex.EncodeToString(jti[:]),
+	}).CompactSerialize()
+}
+
+func (f *front) post(path string, body any, peer []*x509.Certificate, bearer ...string) fixture.Result {
 	js, _ := json.Marshal(body)
 	req := httptest.NewRequest("POST", "https://"+fixture.DNSName+path, bytes.NewReader(js))
 	req.Header.Set("Content-Type", "application/json")
+	if len(bearer) == 1 {
+		req.Header.Set("Authorization", "Bearer "+bearer[0])
+	}
 	if peer != nil {
 		req = fixture.WithClientCert(req, peer...)
 	}
@@ -672,6 +709,24 @@ func (k *Case) run(f *front) (out string, ok bool) {
 		r = f.post("/1.0/rekey", api.RekeyRequest{CsrPEM: api.CertificateRequest{CertificateRequest: csr}}, peer)
 		note("rekey")(f.judge("rekey", statusOf(r), signResp(r), leaf, eng, vfy))
 	}
+	// --- POST /1.0/renew authenticated with a renew token (no client certificate): the certificate
+	// was issued by the CA's previous, unconstrained intermediate and still chains to the root
+	if f.oldInt != nil {
+		// the token route wants to know the provisioner that issued the certificate: it carries
+		// the provisioner extension of the CA's JWK provisioner, as every certificate that CA issued
+		otpl := *tpl
+		if ext, err := (&provisioner.Extension{Type: provisioner.TypeJWK, Name: "jwk", CredentialID: f.ca.JWK.KeyID}).ToExtension(); err == nil {
+			otpl.ExtraExtensions = []pkix.Extension{ext}
+		}
+		if od, err := x509.CreateCertificate(rand.Reader, &otpl, f.oldInt, leafKey.Public(), oldKey); err == nil {
+			if oldLeaf, err := x509.ParseCertificate(od); err == nil {
+				if tok, err := renewToken([]*x509.Certificate{oldLeaf, f.oldInt}, leafKey, "C05 leaf"); err == nil {
+					r = f.post("/1.0/renew", struct{}{}, nil, tok)
+					note("renewtok")(f.judge("renewtok", statusOf(r), signResp(r), leaf, eng, vfy))
+				}
+			}
+		}
+	}
 	// --- ACME (DNS and IP identifiers only)
 	if len(k.Names.Emails)+len(k.Names.URIs) == 0 {
 		if _, der, ok := mkCSR(leafKey, ""); ok {
@@ -731,6 +786,7 @@ func main() {
 	}
 	leafKey, _ = ecdsa.GenerateKey(elliptic.P256(), rand.Reader)
 	newKey, _ = ecdsa.GenerateKey(elliptic.P256(), rand.Reader)
+	oldKey, _ = ecdsa.GenerateKey(elliptic.P256(), rand.Reader)
 	if scepKey, err = rsa.GenerateKey(rand.Reader, 2048); err != nil {
 		panic(err)
 	}
